@@ -73,7 +73,7 @@ impl<'a> StructData<'a> {
                 fallback = true;
             }
 
-            default_id = field_data.id() + 1;
+            default_id = field_data.id().wrapping_add(1);
             field_datas.push(field_data);
         }
 
